@@ -64,6 +64,7 @@ type handCfg struct {
 }
 
 type runner struct {
+	taint       func() string
 	td          *TD
 	hc          *handCfg
 	mons        []Monitor
@@ -73,6 +74,9 @@ type runner struct {
 }
 
 func (r *runner) check(v *Viol) bool {
+	if v != nil && r.taint != nil && r.taint() != "" {
+		v = &Viol{Key: r.taint(), Detail: "[" + v.Key + "] " + v.Detail}
+	}
 	if v != nil && hitKnown(v.Key, v.Detail+"\nconfig: "+r.hc.name+"\nops: "+r.td.opsString()) {
 		return r.viol != nil
 	}
